@@ -268,11 +268,110 @@ pub(crate) mod verif_keyring {
 
     /// C17/C09: valid_key_name: 1..=128 bytes.
     #[kani::proof]
+    #[kani::unwind(4)]
     pub fn c17_valid_key_name() {
         let buf = [b'x'; 130];
         let n: usize = kani::any();
         kani::assume(n <= 130);
-        let s = core::str::from_utf8(&buf[..n]).unwrap();
+        let s = unsafe { core::str::from_utf8_unchecked(&buf[..n]) };
         assert!(Keyring::valid_key_name(s) == (n >= 1 && n <= 128), "[C17] a key name is valid iff it has 1..=128 bytes");
+    }
+
+    // ---------------------------------------------------------------- the parser
+    pub const PK_A: &str = "PAAAAAAAAAAAAAAAAAAAAAAAAAAAAAAAAAAAAAAAAAAAAAAA"; // 48 chars: decodes (E-B64) to the harness's 36 bytes
+    pub const PK_B: &str = "PBAAAAAAAAAAAAAAAAAAAAAAAAAAAAAAAAAAAAAAAAAAAAAA";
+
+    fn name_text(name: &[u8], n: usize) -> String {
+        // the text serialize_key() writes for one key without a private key line
+        let mut t = String::from("[Key]\nName = ");
+        t.push_str(core::str::from_utf8(&name[..n]).unwrap());
+        t.push_str("\nPublicKey = ");
+        t.push_str(PK_A);
+        t.push('\n');
+        t
+    }
+    fn is_ws(b: u8) -> bool { b == b' ' || (b >= 9 && b <= 13) }
+    fn name_roundtrip(with_tab: bool) {
+        unsafe { ct_codecs::kani_model::ATT_LEN = 36; }
+        let name: [u8; 3] = kani::any();
+        let n: usize = kani::any();
+        kani::assume(n >= 1 && n <= 3);
+        // names `key generate` accepts: one line of input, trimmed, non-empty (ASCII here)
+        let mut has_tab = false;
+        let mut j = 0;
+        while j < 3 {
+            if j < n {
+                kani::assume(name[j] != 0 && name[j] < 0x80 && name[j] != b'\n');
+                if name[j] == b'\t' { has_tab = true; }
+            }
+            j += 1;
+        }
+        kani::assume(!is_ws(name[0]) && !is_ws(name[n - 1]));
+        kani::assume(has_tab == with_tab);
+        let text = name_text(&name, n);
+        let kr = Keyring::new(&text);
+        if with_tab {
+            assert!(kr.is_ok() && kr.as_ref().unwrap().keys.len() == 1 && kr.as_ref().unwrap().keys[0].name.as_bytes() == &name[..n],
+                    "[C17] KF-F4 a key name containing a TAB, as written by key generation, parses back to itself");
+        } else {
+            assert!(kr.is_ok(), "[C17,C14] a [Key] section as written by key generation is accepted");
+            let kr = kr.unwrap();
+            assert!(kr.keys.len() == 1, "[C17] one section gives one entry");
+            assert!(kr.keys[0].name.as_bytes() == &name[..n], "[C17,C14] the name parses back to exactly the name that was written");
+            assert!(kr.keys[0].public_key.as_str() == PK_A && kr.keys[0].private_key.is_none(), "[C17] the public key parses back to exactly what was written");
+            assert!(kr.get_key(core::str::from_utf8(&name[..n]).unwrap()).is_some(), "[C17,C12] the key is found under the name that was written");
+            core::mem::forget(kr);
+        }
+    }
+    /// C17(2): names accepted by key generation (no TAB) round-trip through the parser.
+    #[kani::proof]
+    #[kani::unwind(70)]
+    pub fn c17_name_roundtrip() { name_roundtrip(false); }
+    /// Known finding F4: names containing a TAB do not (the parser deletes every TAB).
+    #[kani::proof]
+    #[kani::unwind(70)]
+    pub fn c17_name_roundtrip_tab() { name_roundtrip(true); }
+
+    /// C17(1): structural acceptance on section shapes, compared with the documented rule: every [Key] section has a Name
+    /// and a PublicKey, fields appear once per section and only inside a section, names and public keys are unique,
+    /// entries = sections in order.
+    #[kani::proof]
+    #[kani::unwind(70)]
+    pub fn c17_sections() {
+        unsafe { ct_codecs::kani_model::ATT_LEN = 36; }
+        let which: u8 = kani::any();
+        kani::assume(which < 12);
+        // (text, accepted?, expected entry count)
+        let (text, accept, count): (String, bool, usize) = match which {
+            0 => (format_two("a", PK_A, "b", PK_B), true, 2),
+            1 => (format_two("a", PK_A, "a", PK_B), false, 0),                 // duplicate name
+            2 => (format_two("a", PK_A, "b", PK_A), false, 0),                 // duplicate public key
+            3 => (String::from("[Key]\n[Key]\nName = a\nPublicKey = PAAAAAAAAAAAAAAAAAAAAAAAAAAAAAAAAAAAAAAAAAAAAAAA\n"), false, 0), // empty first section
+            4 => (String::from("[Key]\nName = a\nPublicKey = PAAAAAAAAAAAAAAAAAAAAAAAAAAAAAAAAAAAAAAAAAAAAAAA\n[Key]\n"), false, 0), // empty last section
+            5 => (String::from("Name = a\n[Key]\nPublicKey = PAAAAAAAAAAAAAAAAAAAAAAAAAAAAAAAAAAAAAAAAAAAAAAA\n"), false, 0),       // field outside a section
+            6 => (String::from("[Key]\nName = a\n"), false, 0),                                                                   // no public key
+            7 => (String::from("[Key]\nPublicKey = PAAAAAAAAAAAAAAAAAAAAAAAAAAAAAAAAAAAAAAAAAAAAAAA\n"), false, 0),                 // no name
+            8 => (String::from("[Key]\nName = a\nName = b\nPublicKey = PAAAAAAAAAAAAAAAAAAAAAAAAAAAAAAAAAAAAAAAAAAAAAAA\n"), false, 0), // field twice
+            9 => (String::from("# c\n\n[Key]\n# c\nName = a\n\nPublicKey = PAAAAAAAAAAAAAAAAAAAAAAAAAAAAAAAAAAAAAAAAAAAAAAA"), true, 1),  // comments, blanks, no final newline
+            10 => (String::from("[Key]\nName = a\njunk\nPublicKey = PAAAAAAAAAAAAAAAAAAAAAAAAAAAAAAAAAAAAAAAAAAAAAAA\n"), false, 0),   // junk line
+            _ => (String::from(""), false, 0),                                                                                      // empty file
+        };
+        let kr = Keyring::new(&text);
+        assert!(kr.is_ok() == accept, "[C17] a keyring is accepted iff every [Key] section is complete, fields are unique per section and inside a section, and no name or public key occurs twice");
+        if let Ok(k) = &kr {
+            assert!(k.keys.len() == count, "[C17] entries are exactly the sections of the file");
+            assert!(k.keys[0].name == "a", "[C17] ... in order");
+            if count == 2 { assert!(k.keys[1].name == "b" && k.keys[1].public_key.as_str() == PK_B, "[C17] ... in order"); }
+        }
+        kani::cover!(which == 0 && kr.is_ok());
+        kani::cover!(which == 3 && kr.is_err());
+        kani::cover!(which == 9 && kr.is_ok());
+        core::mem::forget(kr);
+    }
+    fn format_two(n1: &str, p1: &str, n2: &str, p2: &str) -> String {
+        let mut t = String::from("[Key]\nName = ");
+        t.push_str(n1); t.push_str("\nPublicKey = "); t.push_str(p1);
+        t.push_str("\n\n[Key]\nName = "); t.push_str(n2); t.push_str("\nPublicKey = "); t.push_str(p2); t.push('\n');
+        t
     }
 }
